@@ -119,4 +119,11 @@ CHECKS = {
         "design_ref": "DESIGN.md 2/C15",
         "note": "NaN floats are outside the canonical domain.",
     },
+    "C19": {
+        "level": "exploration",
+        "technique": "stateful (rule-based) property testing for histories, exhaustive fault-position injection, and a deterministic line-granularity thread scheduler with drawn and exhaustively swept preemptions",
+        "text": "Three generated dimensions against one oracle (result == pristine result == reference encoding): Hypothesis RuleBasedStateMachine histories over create/clear/encode/decode/truncated/invalid/faulty-stream operations with an invariant after every step; every write/read position of sampled (class, value) pairs injected with an I/O error followed by a clean call on the same closure; and 2-3 threads run under a harness-owned scheduler (sys.settrace in src/kio, token passing) over drawn schedules of <=3 preemptions plus an exhaustive single-preemption sweep over every step of fixed programs.",
+        "design_ref": "DESIGN.md 2/C19",
+        "note": "Interleavings at source-line granularity (C calls atomic), threads <= 3, preemptions <= 3 (1 in the exhaustive sweeps); histories and (class, value) pairs are sampled.",
+    },
 }
